@@ -209,6 +209,7 @@ RollbackTo(cs, g, n) ==
 \* proposals queued by reference contribute their effect to the commit that sweeps them up
 \* a queued proposal is identified by its content (two leave events of one member in one epoch are
 \* the same MLS proposal: deterministic signature, same ProposalRef)
+\* (every Update proposal carries a fresh leaf node, so two of them are never the same proposal: its target is the event itself)
 Pid(e) == [a |-> ev[e].author, k |-> ev[e].pkind, t |-> ev[e].target]
 PropRemoves(P) == {p.t : p \in {q \in P : q.k \in {"leave", "remove"}}}
 
@@ -711,10 +712,10 @@ ProposeUpdate(c, g, nm) ==
     /\ CanLeave(c, g) /\ nm.name \notin DOMAIN ev
     /\ LET gs == cl[c][g]
            E == [name |-> nm.name, kind |-> "prop", g |-> g, author |-> c, parent |-> gs.chain,
-                 ts |-> nm.ts, rank |-> nm.rank, tag |-> gs.rec.data.nid, pkind |-> "update", target |-> c, gen |-> gs.sentH]
+                 ts |-> nm.ts, rank |-> nm.rank, tag |-> gs.rec.data.nid, pkind |-> "update", target |-> nm.name, gen |-> gs.sentH]
            cs0 == CS(c)
            cs1 == [cs0 EXCEPT !.out = <<E>>, !.g[g].sentH = @ + 1,
-                              !.g[g].props = @ \cup {[a |-> c, k |-> "update", t |-> c]}]
+                              !.g[g].props = @ \cup {[a |-> c, k |-> "update", t |-> nm.name]}]
        IN  Install(c, cs1)
     /\ UNCHANGED <<ginfo, withdrawn, wl, welc, pwelc, hist>>
 
